@@ -15,6 +15,7 @@ type Unit struct {
 	Fuzz         bool   // native go fuzzing (thorough only)
 	FuzzTime     string
 	ThoroughOnly bool
+	Pending      bool // written but without a completed run on the unchanged tree: only with VERIF_PENDING=1 (DESIGN.md 10.10)
 	Env          []string
 }
 
@@ -126,7 +127,7 @@ func init() {
 func init() {
 	properties["C03"] = Property{
 		Level: "exploration",
-		Rule: "cases = (generated program incl. //garble:controlflow functions with drawn directive parameters, configuration from {default, -literals, -tiny, -seed, combinations, controlflow on}, 2-3 build circumstances each drawn from cache state {module-cold private copy, partially filled, fully warm} x -p {1,2,4,16} x source directory (different lengths) x TMPDIR x idle delay); oracle = equal sha256 of all outputs; on a mismatch both are rebuilt with -debugdir and the first differing garbled file is reported. Non-trivial = at least two of the builds really recompiled the module's packages; distinct = (feature set, configuration class, circumstance tuple).",
+		Rule:  "cases = (generated program incl. //garble:controlflow functions with drawn directive parameters, configuration from {default, -literals, -tiny, -seed, combinations, controlflow on}, 2-3 build circumstances each drawn from cache state {module-cold private copy, partially filled, fully warm} x -p {1,2,4,16} x source directory (different lengths) x TMPDIR x idle delay); oracle = equal sha256 of all outputs; on a mismatch both are rebuilt with -debugdir and the first differing garbled file is reported. Non-trivial = at least two of the builds really recompiled the module's packages; distinct = (feature set, configuration class, circumstance tuple).",
 		Assumptions: append([]string{
 			"every build of a case uses the same garble binary, flags, seed, GOGARBLE, toolchain and target",
 			"the clock is varied only by letting time pass; scheduling is varied through -p and machine load, not controlled",
@@ -141,7 +142,7 @@ func init() {
 func init() {
 	properties["C11"] = Property{
 		Level: "exploration",
-		Rule: "cases = generated functions (typed statement grammar: assignments, if/else, 3-clause/condition/range loops over slice, string, int, map and channel, switch with fallthrough, labelled break/continue, goto, select, defer and recover, closures mutating captured variables, conditional panics, calls to earlier functions, methods with value and pointer receivers, generic functions, nil values (typed nil pointer in an interface, nil constant converted to a named pointer/slice/func/map type, nil error from a helper, type switch over a possibly nil error), conversions between named and unnamed types) each marked //garble:controlflow with drawn parameters (flatten_passes 0-3, junk_jumps 0..max, block_splits 0..max, trash_blocks 0-32, flatten_hardening none/xor/delegate_table/both) and called with 3-6 drawn argument tuples; oracle = results, trace and panic outcome per call equal the regular build's; rejected programs are re-built one function at a time. evaluations = functions. Non-trivial = the obfuscated build succeeded and the body contains a branch or loop; distinct = (set of statement kinds and parameter classes, function kind).",
+		Rule:  "cases = generated functions (typed statement grammar: assignments, if/else, 3-clause/condition/range loops over slice, string, int, map and channel, switch with fallthrough, labelled break/continue, goto, select, defer and recover, closures mutating captured variables, conditional panics, calls to earlier functions, methods with value and pointer receivers, generic functions, nil values (typed nil pointer in an interface, nil constant converted to a named pointer/slice/func/map type, nil error from a helper, type switch over a possibly nil error), conversions between named and unnamed types) each marked //garble:controlflow with drawn parameters (flatten_passes 0-3, junk_jumps 0..max, block_splits 0..max, trash_blocks 0-32, flatten_hardening none/xor/delegate_table/both) and called with 3-6 drawn argument tuples; oracle = results, trace and panic outcome per call equal the regular build's; rejected programs are re-built one function at a time. evaluations = functions. Non-trivial = the obfuscated build succeeded and the body contains a branch or loop; distinct = (set of statement kinds and parameter classes, function kind).",
 		Assumptions: append([]string{
 			"termination by construction (bounded loops, calls only to earlier functions); a garbled binary still running after 20 s, confirmed with 40 s, counts as 'junk or trash code executed'",
 			"map ranges are used order-insensitively",
@@ -155,8 +156,8 @@ func init() {
 
 func init() {
 	properties["C09"] = Property{
-		Level: "exploration",
-		Rule: "cases = generated programs whose string, []byte, [N]byte and &[]byte literals are unique high-entropy markers with lengths drawn in and around the window (7, 8, 9, 12, 24, 64, 255-257, 700, 2047, 2048, 2049) in 24 syntactic positions (package variables, struct fields, map keys and values, slice elements, init, returns, arguments incl. any and generic parameters, method bodies, closures, locals, case labels, folded concatenations; plus the exempt contexts const declaration, typed constant, nosplit function), built with garble -literals (+ -tiny, -seed, module-only GOGARBLE); each marker is one evaluation, scored only if it is in the window, not in a documented exempt context, present in the regular binary and printed by the garbled program; then it must be absent from the garbled binary, and so must the -seed text. Non-trivial = scored marker; distinct = (position, form, length bucket).",
+		Level:       "exploration",
+		Rule:        "cases = generated programs whose string, []byte, [N]byte and &[]byte literals are unique high-entropy markers with lengths drawn in and around the window (7, 8, 9, 12, 24, 64, 255-257, 700, 2047, 2048, 2049) in 24 syntactic positions (package variables, struct fields, map keys and values, slice elements, init, returns, arguments incl. any and generic parameters, method bodies, closures, locals, case labels, folded concatenations; plus the exempt contexts const declaration, typed constant, nosplit function), built with garble -literals (+ -tiny, -seed, module-only GOGARBLE); each marker is one evaluation, scored only if it is in the window, not in a documented exempt context, present in the regular binary and printed by the garbled program; then it must be absent from the garbled binary, and so must the -seed text. Non-trivial = scored marker; distinct = (position, form, length bucket).",
 		Assumptions: append([]string{"byte composite literals are kept at most 300 bytes long to bound compile time"}, commonAssumptions...),
 		ReplayUnit:  "TestC09Replay",
 		Units: []Unit{
@@ -167,8 +168,8 @@ func init() {
 
 func init() {
 	properties["C10"] = Property{
-		Level: "exploration",
-		Rule: "cases = points of the grid crash kind (26: panics with string/error/Stringer/struct/custom error/error whose Error panics, nil dereference, index and slice bounds, division by zero, failed type assertions, nil-map write, closed/nil channel operations, mutex and channel deadlocks, re-panic in a deferred call, Goexit of main, unrecovered panic after a recovered one, nil func call, os.Exit(n), unlock of unlocked mutex, negative makeslice, stack overflow) x context (main, callee, goroutine, deferred call, closure) x mode (crash, crash under a recovering caller, position query) x GOTRACEBACK (unset, none, single, all, system), executed against generated programs (drawn own output on print/println/stderr/stdout incl. text that imitates runtime messages, crash code in main or in a dependency, drawn padding, -tiny alone or with -literals/-seed). Position queries are made in 10 source layouts, among them several statements on one source line, one-line if/for/switch/function bodies and deferred closures, runtime.Callers with CallersFrames. Oracle: -tiny stderr equals exactly the program's own output (taken from a dry run of the regular binary), stdout and exit status equal the regular build's; under recover the whole output equals the regular build's; position queries report no file and line 1. Non-trivial = the regular binary wrote runtime text for the point (there was something to silence) resp. a non-nil recovered value; distinct = (kind, context, mode, GOTRACEBACK).",
+		Level:       "exploration",
+		Rule:        "cases = points of the grid crash kind (26: panics with string/error/Stringer/struct/custom error/error whose Error panics, nil dereference, index and slice bounds, division by zero, failed type assertions, nil-map write, closed/nil channel operations, mutex and channel deadlocks, re-panic in a deferred call, Goexit of main, unrecovered panic after a recovered one, nil func call, os.Exit(n), unlock of unlocked mutex, negative makeslice, stack overflow) x context (main, callee, goroutine, deferred call, closure) x mode (crash, crash under a recovering caller, position query) x GOTRACEBACK (unset, none, single, all, system), executed against generated programs (drawn own output on print/println/stderr/stdout incl. text that imitates runtime messages, crash code in main or in a dependency, drawn padding, -tiny alone or with -literals/-seed). Position queries are made in 10 source layouts, among them several statements on one source line, one-line if/for/switch/function bodies and deferred closures, runtime.Callers with CallersFrames. Oracle: -tiny stderr equals exactly the program's own output (taken from a dry run of the regular binary), stdout and exit status equal the regular build's; under recover the whole output equals the regular build's; position queries report no file and line 1. Non-trivial = the regular binary wrote runtime text for the point (there was something to silence) resp. a non-nil recovered value; distinct = (kind, context, mode, GOTRACEBACK).",
 		Assumptions: append([]string{"GOTRACEBACK=crash (core dumps) and externally delivered signals are not explored", "concurrent map writes are left out: their detection is not deterministic"}, commonAssumptions...),
 		ReplayUnit:  "TestC10Replay",
 		Units: []Unit{
@@ -179,8 +180,8 @@ func init() {
 
 func init() {
 	properties["C04"] = Property{
-		Level: "exploration",
-		Rule: "cases = generated call chains of 3-9 frames across 1-3 packages and up to 3 files per package, each frame a function, value/pointer method, generic function, generic method, closure, goroutine entry (named helper or function literal), deferred call or deferred function literal, ending in a panic, debug.PrintStack or runtime.Caller queries; configuration from {default, -literals, -seed, -tags with tag-dependent files}; plus 0-4 lines of surrounding text (CR LF, missing final newline, 2000-byte lines, NUL bytes, look-alike trace lines). Oracle: `garble reverse` applied to the garbled program's stderr equals the stderr of the regular -trimpath build after removing code offsets, argument words and goroutine numbers; text without obfuscated tokens passes through byte for byte with exit status 1; a trace embedded in such text is reversed in place. Long-line law: the first trace line `garble reverse` changes is fed again preceded by unrelated text on the same line, once for every byte offset of the line relative to a 4 KiB and to a 64 KiB boundary; each must come back as the padding followed by what the line alone reverses to. Non-trivial = at least three obfuscated position lines and a frame outside package main; distinct = (frame kind sequence, end action, configuration).",
+		Level:       "exploration",
+		Rule:        "cases = generated call chains of 3-9 frames across 1-3 packages and up to 3 files per package, each frame a function, value/pointer method, generic function, generic method, closure, goroutine entry (named helper or function literal), deferred call or deferred function literal, ending in a panic, debug.PrintStack or runtime.Caller queries; configuration from {default, -literals, -seed, -tags with tag-dependent files}; plus 0-4 lines of surrounding text (CR LF, missing final newline, 2000-byte lines, NUL bytes, look-alike trace lines). Oracle: `garble reverse` applied to the garbled program's stderr equals the stderr of the regular -trimpath build after removing code offsets, argument words and goroutine numbers; text without obfuscated tokens passes through byte for byte with exit status 1; a trace embedded in such text is reversed in place. Long-line law: the first trace line `garble reverse` changes is fed again preceded by unrelated text on the same line, once for every byte offset of the line relative to a 4 KiB and to a 64 KiB boundary; each must come back as the padding followed by what the line alone reverses to. Non-trivial = at least three obfuscated position lines and a frame outside package main; distinct = (frame kind sequence, end action, configuration).",
 		Assumptions: append([]string{"every generated call sits on one line and starts with an identifier (call-site positions are what the statement covers)"}, commonAssumptions...),
 		ReplayUnit:  "TestC04Replay",
 		Units: []Unit{
@@ -191,8 +192,8 @@ func init() {
 
 func init() {
 	properties["C13"] = Property{
-		Level: "exploration",
-		Rule: "cases = generated multi-package programs (types, funcs, vars, consts, struct fields, unexported and interface methods, generic types, embedded aliases) x configuration {default, -seed, -tiny, module-only GOGARBLE}; three-way agreement per object: the build's name of every declared identifier is read from -debugdir by pairing original and garbled declarations; our own objectpath.For over the type-checked original yields the API-reachable objects; every such object the build renamed must be listed by `garble map` under exactly the build's name, every listed path must decode and agree, the listed import path must equal the one the build's import specs use, and `garble reverse` must map each listed obfuscated name back. evaluations = programs; objects-compared is reported as a label. Non-trivial = at least 15 compared objects of at least 4 kinds; distinct = (kinds, configuration, feature set).",
+		Level:       "exploration",
+		Rule:        "cases = generated multi-package programs (types, funcs, vars, consts, struct fields, unexported and interface methods, generic types, embedded aliases) x configuration {default, -seed, -tiny, module-only GOGARBLE}; three-way agreement per object: the build's name of every declared identifier is read from -debugdir by pairing original and garbled declarations; our own objectpath.For over the type-checked original yields the API-reachable objects; every such object the build renamed must be listed by `garble map` under exactly the build's name, every listed path must decode and agree, the listed import path must equal the one the build's import specs use, and `garble reverse` must map each listed obfuscated name back. evaluations = programs; objects-compared is reported as a label. Non-trivial = at least 15 compared objects of at least 4 kinds; distinct = (kinds, configuration, feature set).",
 		Assumptions: append([]string{"objectpath encoding uses golang.org/x/tools v0.48.0, the version garble itself is built with", "original and garbled declarations correspond one to one in order (checked: a mismatch aborts the run as an infrastructure error)"}, commonAssumptions...),
 		ReplayUnit:  "TestC13Replay",
 		Units: []Unit{
@@ -203,8 +204,8 @@ func init() {
 
 func init() {
 	properties["C12"] = Property{
-		Level: "exploration",
-		Rule: "cases = (generated multi-package program, seeded or not, one changed input from {nothing (repeat on fresh caches), -tiny, -literals, the seed value, a build tag that adds a file, a comment-only edit in one package, the module path, GOGARBLE}); both sides' complete name tables come from `garble map` (whose agreement with the build is C13's subject), every listed objectpath is resolved against the type-checked original to classify it as package-scoped (funcs, types, vars, consts, methods, interface methods, embedded fields, the import path) or struct field; metamorphic oracle per the statement: with -seed names are equal under flag/tag/edit/GOGARBLE changes, all differ under another seed, package-scoped names differ and field names stay under another module path; without -seed names are stable across repeats, all differ under flag or GOGARBLE changes, and after an edit the edited package's package-scoped names differ while its field names and the names of packages that do not import it stay. A second unit runs `garble -seed test` on programs whose packages have internal and external test packages declaring same-named functions; the tests print those functions' run-time names, which must differ between a package and its external test package (another package). evaluations = build pairs resp. test runs; names-compared is reported as a label. Non-trivial = at least 10 names compared under an asserted relation; distinct = (changed input, seeded?, kinds present).",
+		Level:       "exploration",
+		Rule:        "cases = (generated multi-package program, seeded or not, one changed input from {nothing (repeat on fresh caches), -tiny, -literals, the seed value, a build tag that adds a file, a comment-only edit in one package, the module path, GOGARBLE}); both sides' complete name tables come from `garble map` (whose agreement with the build is C13's subject), every listed objectpath is resolved against the type-checked original to classify it as package-scoped (funcs, types, vars, consts, methods, interface methods, embedded fields, the import path) or struct field; metamorphic oracle per the statement: with -seed names are equal under flag/tag/edit/GOGARBLE changes, all differ under another seed, package-scoped names differ and field names stay under another module path; without -seed names are stable across repeats, all differ under flag or GOGARBLE changes, and after an edit the edited package's package-scoped names differ while its field names and the names of packages that do not import it stay. A second unit runs `garble -seed test` on programs whose packages have internal and external test packages declaring same-named functions; the tests print those functions' run-time names, which must differ between a package and its external test package (another package). evaluations = build pairs resp. test runs; names-compared is reported as a label. Non-trivial = at least 10 names compared under an asserted relation; distinct = (changed input, seeded?, kinds present).",
 		Assumptions: append([]string{"a chance equality of two 36..72-bit hashed names is ignored", "the Go version and GOOS/GOARCH inputs are not varied (one toolchain; another platform's std would have to be compiled for every case)"}, commonAssumptions...),
 		ReplayUnit:  "TestC12Replay",
 		Units: []Unit{
@@ -216,21 +217,21 @@ func init() {
 
 func init() {
 	properties["C19"] = Property{
-		Level: "fault_enumeration",
-		Rule: "cases = points of the grid command {build, run, reverse, map} x outcome {success, go list error (missing import), type error, compile error in a dependency, link error (body-less function with an empty assembly file), bad build flag, garble flag after the command} x pre-existing -debugdir target {none, absent, empty, owned with stale content, foreign files, foreign sub-directories, symlink to a foreign or to an owned directory, regular file} x cache state {module-cold, warm} x output inside or outside the source tree, each on a drawn program. Second unit (refusals, no build needed): -debugdir targets that are not garble's {regular file, empty file, symlink to a file, symlink and symlink-to-symlink to a foreign directory, directories holding drawn entries: hidden files only, names resembling the marker, the marker one level deeper, source/ and garbled/ trees without marker} x path spelling {absolute, relative, uncleaned .., trailing slash, separate argument} x command {build, run, test}: the surroundings are byte-identical afterwards, the command fails, TMPDIR gains nothing. Oracle: a recursive (mode, size, sha256, link target) snapshot of the source tree is unchanged apart from the requested output; the private TMPDIR is empty afterwards; a non-empty target without the marker is refused and byte-identical afterwards (also behind a symlink); an owned/absent/empty target of a successful build holds a source tree equal to the original files and a garbled tree in which every module Go file exists and parses, with no stale content. Non-trivial = a failing outcome or a -debugdir state other than none; distinct = (command, outcome, target state, cache state).",
+		Level:       "fault_enumeration",
+		Rule:        "cases = points of the grid command {build, run, reverse, map} x outcome {success, go list error (missing import), type error, compile error in a dependency, link error (body-less function with an empty assembly file), bad build flag, garble flag after the command} x pre-existing -debugdir target {none, absent, empty, owned with stale content, foreign files, foreign sub-directories, symlink to a foreign or to an owned directory, regular file} x cache state {module-cold, warm} x output inside or outside the source tree, each on a drawn program. Second unit (refusals, no build needed): -debugdir targets that are not garble's {regular file, empty file, symlink to a file, symlink and symlink-to-symlink to a foreign directory, directories holding drawn entries: hidden files only, names resembling the marker, the marker one level deeper, source/ and garbled/ trees without marker} x path spelling {absolute, relative, uncleaned .., trailing slash, separate argument} x command {build, run, test}: the surroundings are byte-identical afterwards, the command fails, TMPDIR gains nothing. Oracle: a recursive (mode, size, sha256, link target) snapshot of the source tree is unchanged apart from the requested output; the private TMPDIR is empty afterwards; a non-empty target without the marker is refused and byte-identical afterwards (also behind a symlink); an owned/absent/empty target of a successful build holds a source tree equal to the original files and a garbled tree in which every module Go file exists and parses, with no stale content. Non-trivial = a failing outcome or a -debugdir state other than none; distinct = (command, outcome, target state, cache state).",
 		Assumptions: append([]string{"garble's stdout and stderr go to buffers, never to a pipe whose reader may exit first", "the grid is sampled by rapid in the quick tier and walked more densely in the thorough tier; it is not exhaustive"}, commonAssumptions...),
 		ReplayUnit:  "TestC19Replay",
 		Units: []Unit{
 			{Name: "TestC19", Kind: "e2e", Checks: [2]int{6, 40}, Workers: [2]int{3, 8}},
-			{Name: "TestC19Foreign", Kind: "e2e", Checks: [2]int{30, 400}, Workers: [2]int{2, 4}},
+			{Name: "TestC19Foreign", Kind: "e2e", Checks: [2]int{30, 400}, Workers: [2]int{2, 4}, Pending: true},
 		},
 	}
 }
 
 func init() {
 	properties["C15"] = Property{
-		Level: "exploration",
-		Rule: "in-process cases = struct type descriptions (1-5 fields, embedded or named, field types drawn recursively from basic types, named types of several packages, pointers, slices, arrays, maps, channels, functions, interfaces, nested structs) each built three times with fresh go/types objects, different tags and aliases in front of field types: every field must get the same name from hashWithStruct in all builds, with and without a seed (the generator checks with types.IdenticalIgnoreTags that its variants really are identical). End-to-end cases = generated programs that convert, assign and select fields between identical struct types declared in different packages, behind aliases, as anonymous struct types and as results of generic code; the program must build and behave like the regular build and, reading the -debugdir sources, all struct type expressions that are identical ignoring tags must carry the same garbled field names. Non-trivial = description with at least three kinds of type constructors, resp. program with at least one group of identical struct types spanning packages; distinct = description hash resp. (feature set, configuration).",
+		Level:       "exploration",
+		Rule:        "in-process cases = struct type descriptions (1-5 fields, embedded or named, field types drawn recursively from basic types, named types of several packages, pointers, slices, arrays, maps, channels, functions, interfaces, nested structs) each built three times with fresh go/types objects, different tags and aliases in front of field types: every field must get the same name from hashWithStruct in all builds, with and without a seed (the generator checks with types.IdenticalIgnoreTags that its variants really are identical). End-to-end cases = generated programs that convert, assign and select fields between identical struct types declared in different packages, behind aliases, as anonymous struct types and as results of generic code; the program must build and behave like the regular build and, reading the -debugdir sources, all struct type expressions that are identical ignoring tags must carry the same garbled field names. Non-trivial = description with at least three kinds of type constructors, resp. program with at least one group of identical struct types spanning packages; distinct = description hash resp. (feature set, configuration).",
 		Assumptions: append([]string{"in the in-process part separate builds of one description stand for the separate garble processes that compile different packages"}, commonAssumptions...),
 		ReplayUnit:  "TestC15Replay",
 		Units: []Unit{
@@ -242,8 +243,8 @@ func init() {
 
 func init() {
 	properties["C14"] = Property{
-		Level: "exploration",
-		Rule: "cases = (drawn feature set placed over a fixed five-package module whose packages include siblings sharing a string prefix (alpha, alphabet), a nested package (alpha/inner) and an unrelated one (beta), so that obfuscated and plain packages import each other in both directions) x GOGARBLE pattern list from a fixed set of 12 (exact paths, element prefixes, globs, comma lists, a std package, module and host prefixes, a string prefix that is not an element prefix, lists matching nothing), built with -literals; the expected partition comes from an independent implementation of the documented prefix-glob rule (itself pinned by hand-computed cases). Oracle: output equals the regular build's incl. file:line positions reported from inside unselected packages; every marker name and in-window literal of a selected package is absent from the binary, every one of an unselected package (present in the regular binary) is still there, likewise import paths; selected packages do not report original positions; runtime function names are intact; a list matching nothing being built is refused with the GOGARBLE message and no binary. Every case also tries one drawn list that selects nothing by construction (only commas, patterns of foreign hosts with stray commas, string prefixes of package paths that are not element prefixes): it must be refused. evaluations = scored markers. Non-trivial = partition with packages on both sides and an import crossing it (or a refused no-match list); distinct = (marker kind, side, pattern).",
+		Level:       "exploration",
+		Rule:        "cases = (drawn feature set placed over a fixed five-package module whose packages include siblings sharing a string prefix (alpha, alphabet), a nested package (alpha/inner) and an unrelated one (beta), so that obfuscated and plain packages import each other in both directions) x GOGARBLE pattern list from a fixed set of 12 (exact paths, element prefixes, globs, comma lists, a std package, module and host prefixes, a string prefix that is not an element prefix, lists matching nothing), built with -literals; the expected partition comes from an independent implementation of the documented prefix-glob rule (itself pinned by hand-computed cases). Oracle: output equals the regular build's incl. file:line positions reported from inside unselected packages; every marker name and in-window literal of a selected package is absent from the binary, every one of an unselected package (present in the regular binary) is still there, likewise import paths; selected packages do not report original positions; runtime function names are intact; a list matching nothing being built is refused with the GOGARBLE message and no binary. Every case also tries one drawn list that selects nothing by construction (only commas, patterns of foreign hosts with stray commas, string prefixes of package paths that are not element prefixes): it must be refused. evaluations = scored markers. Non-trivial = partition with packages on both sides and an import crossing it (or a refused no-match list); distinct = (marker kind, side, pattern).",
 		Assumptions: append([]string{"positions 'verbatim' is read as file base name and line (the directory part of an unselected package's position is replaced by garble's temporary directory name on the unchanged tree)"}, commonAssumptions...),
 		ReplayUnit:  "TestC14Replay",
 		Units: []Unit{
@@ -255,8 +256,8 @@ func init() {
 
 func init() {
 	properties["C08"] = Property{
-		Level: "exploration",
-		Rule: "end-to-end cases = generated programs in which, for each of up to 10 flow paths drawn from 20 (direct TypeOf, helper, helper's second parameter, helper chain, interface method, pointer, slice, variadic, function value, json.Marshal, json.Unmarshal, method expression, bound method value, FieldByName, nested/pointer/slice/map/array fields, generic instantiation, alias, map value, anonymous struct, helper in the using package), a distinct struct type reaches reflection only through that path; helper names are drawn to sort before or after their callers; declared in a dependency and used from a dependant or the same package; each program is built 2 (quick) or 5 (thorough) times on fresh caches because the analysis iterates maps. Second end-to-end unit (GOGARBLE boundary): three-package programs (main, a payload package, a wrapper package) under GOGARBLE lists that leave the wrapper package, the payload package or nothing outside; 2-6 paths per program, each = wrapper shape {none, value, pointer, slice, slice of pointers, map value, array, embedded, wrapper in wrapper, anonymous struct field, generic wrapper} x entry {reflect.TypeOf in main / in the wrapper package / in the payload package, reflect.ValueOf, json.Marshal in main and in a helper, json.Unmarshal, FieldByName} x payload with or without a nested second payload type. Oracle: the describer's output (type names, field names, method names, JSON keys, lookups by name) equals the regular build's in every build. In-process cases = name-pair tables for the injected replacer vs. strings.NewReplacer. evaluations = (program, flow) pairs. Non-trivial = every evaluated flow (its type would otherwise be obfuscated); distinct = (flow, configuration class, cross-package?).",
+		Level:       "exploration",
+		Rule:        "end-to-end cases = generated programs in which, for each of up to 10 flow paths drawn from 20 (direct TypeOf, helper, helper's second parameter, helper chain, interface method, pointer, slice, variadic, function value, json.Marshal, json.Unmarshal, method expression, bound method value, FieldByName, nested/pointer/slice/map/array fields, generic instantiation, alias, map value, anonymous struct, helper in the using package), a distinct struct type reaches reflection only through that path; helper names are drawn to sort before or after their callers; declared in a dependency and used from a dependant or the same package; each program is built 2 (quick) or 5 (thorough) times on fresh caches because the analysis iterates maps. Second end-to-end unit (GOGARBLE boundary): three-package programs (main, a payload package, a wrapper package) under GOGARBLE lists that leave the wrapper package, the payload package or nothing outside; 2-6 paths per program, each = wrapper shape {none, value, pointer, slice, slice of pointers, map value, array, embedded, wrapper in wrapper, anonymous struct field, generic wrapper} x entry {reflect.TypeOf in main / in the wrapper package / in the payload package, reflect.ValueOf, json.Marshal in main and in a helper, json.Unmarshal, FieldByName} x payload with or without a nested second payload type. Oracle: the describer's output (type names, field names, method names, JSON keys, lookups by name) equals the regular build's in every build. In-process cases = name-pair tables for the injected replacer vs. strings.NewReplacer. evaluations = (program, flow) pairs. Non-trivial = every evaluated flow (its type would otherwise be obfuscated); distinct = (flow, configuration class, cross-package?).",
 		Assumptions: append([]string{"only Name(), Kind(), Field(i).Name, Method(i).Name, FieldByName and JSON output are printed; String()/PkgPath() carry the obfuscated package qualifier by design"}, commonAssumptions...),
 		ReplayUnit:  "TestC08Replay",
 		Units: []Unit{
@@ -269,8 +270,8 @@ func init() {
 
 func init() {
 	properties["C07"] = Property{
-		Level: "fault_enumeration",
-		Rule: "cases = after a warm build of a three-package program whose reflection facts flow through a dependency that does not import reflect itself: 1-3 faults, each hitting 1-6 drawn entries of an area {index and data files of GARBLE_CACHE/build, the GOCACHE entries the build created, GARBLE_CACHE/tool/{link, link.lock, link.version}} with a kind {delete, empty, truncate to half, truncate to one byte}, or removing a whole directory {GARBLE_CACHE/build, GARBLE_CACHE/tool, GARBLE_CACHE}; then an edit {comment in main, code in main, literal in the middle package, none} and a rebuild, under {default, -literals, -seed}. Oracle: the rebuild succeeds and its binary (sha256) and its output incl. JSON keys and reflected names equal those of an isolated build of the edited source from module-cold caches. Non-trivial = at least one existing entry was hit; distinct = (fault area/kind multiset, edit, configuration).",
+		Level:       "fault_enumeration",
+		Rule:        "cases = after a warm build of a three-package program whose reflection facts flow through a dependency that does not import reflect itself: 1-3 faults, each hitting 1-6 drawn entries of an area {index and data files of GARBLE_CACHE/build, the GOCACHE entries the build created, GARBLE_CACHE/tool/{link, link.lock, link.version}} with a kind {delete, empty, truncate to half, truncate to one byte}, or removing a whole directory {GARBLE_CACHE/build, GARBLE_CACHE/tool, GARBLE_CACHE}; then an edit {comment in main, code in main, literal in the middle package, none} and a rebuild, under {default, -literals, -seed}. Oracle: the rebuild succeeds and its binary (sha256) and its output incl. JSON keys and reflected names equal those of an isolated build of the edited source from module-cold caches. Non-trivial = at least one existing entry was hit; distinct = (fault area/kind multiset, edit, configuration).",
 		Assumptions: append([]string{"entries are sampled by rapid (quick) and more densely (thorough), not enumerated exhaustively; deleting the whole GOCACHE (a full std rebuild) is left to the thorough tier of C03/C06"}, commonAssumptions...),
 		ReplayUnit:  "TestC07Replay",
 		Units: []Unit{
@@ -281,8 +282,8 @@ func init() {
 
 func init() {
 	properties["C06"] = Property{
-		Level: "exploration",
-		Rule: "cases = histories of 4-10 steps over ONE shared (GOCACHE, GARBLE_CACHE) that starts as the union of the warmed caches of the configurations the history visits: build under a drawn configuration {default, -tiny, -literals, -seed (three values, two of them 12-byte seeds sharing their first 8 bytes), -literals -tiny, GARBLE_EXPERIMENTAL_CONTROLFLOW=1, GOGARBLE = the module only, GOGARBLE = one package (alpha) and GOGARBLE = that package plus a sibling whose path has the first one's as a string prefix (alpha,alphabet) - drawn together} with or without -tags and -ldflags=-X (four values, targets in main and in a dependency), edit a drawn package {literal, new function, comment only, parameters of the //garble:controlflow directive of the program's control-flow function}, rebuild with nothing changed. Reference model: a memo table (configuration, flags, source digest) -> (sha256, program output) filled by the same command on private module-cold caches. Invariant after every build: same exit status, same program output and same binary as the reference; after 'rebuild with nothing changed': go build -v names no package of the module. Non-trivial = a configuration is built again after another build or an edit intervened; distinct = the sequence of (configuration class, edit kind).",
+		Level:       "exploration",
+		Rule:        "cases = histories of 4-10 steps over ONE shared (GOCACHE, GARBLE_CACHE) that starts as the union of the warmed caches of the configurations the history visits: build under a drawn configuration {default, -tiny, -literals, -seed (three values, two of them 12-byte seeds sharing their first 8 bytes), -literals -tiny, GARBLE_EXPERIMENTAL_CONTROLFLOW=1, GOGARBLE = the module only, GOGARBLE = one package (alpha) and GOGARBLE = that package plus a sibling whose path has the first one's as a string prefix (alpha,alphabet) - drawn together} with or without -tags and -ldflags=-X (four values, targets in main and in a dependency), edit a drawn package {literal, new function, comment only, parameters of the //garble:controlflow directive of the program's control-flow function}, rebuild with nothing changed. Reference model: a memo table (configuration, flags, source digest) -> (sha256, program output) filled by the same command on private module-cold caches. Invariant after every build: same exit status, same program output and same binary as the reference; after 'rebuild with nothing changed': go build -v names no package of the module. Non-trivial = a configuration is built again after another build or an edit intervened; distinct = the sequence of (configuration class, edit kind).",
 		Assumptions: append([]string{"reproducibility (C03) is presupposed: configurations with an open C03 finding are not part of the histories"}, commonAssumptions...),
 		ReplayUnit:  "TestC06Replay",
 		Units: []Unit{
@@ -293,8 +294,8 @@ func init() {
 
 func init() {
 	properties["C17"] = Property{
-		Level: "exploration",
-		Rule: "cases = trials of 2-6 simultaneous top-level garble builds over ONE shared GOCACHE, GARBLE_CACHE and TMPDIR: each process builds one of three small projects under {default, -tiny, -literals} with -p in {1,2,4,16} and a start offset from {0, 0.1, 0.5, 0.8, 3, 8, 15 s} (late starters meet a linker that another process is still building or has just installed); the shared cache starts warm, without the patched linker, or without GARBLE_CACHE at all. Oracle: every process exits 0 and its binary has the sha256 that the same command produces alone on private caches. Non-trivial = at least two processes overlapped in time (measured); distinct = (cache state, multiset of (project, configuration, -p)).",
+		Level:       "exploration",
+		Rule:        "cases = trials of 2-6 simultaneous top-level garble builds over ONE shared GOCACHE, GARBLE_CACHE and TMPDIR: each process builds one of three small projects under {default, -tiny, -literals} with -p in {1,2,4,16} and a start offset from {0, 0.1, 0.5, 0.8, 3, 8, 15 s} (late starters meet a linker that another process is still building or has just installed); the shared cache starts warm, without the patched linker, or without GARBLE_CACHE at all. Oracle: every process exits 0 and its binary has the sha256 that the same command produces alone on private caches. Non-trivial = at least two processes overlapped in time (measured); distinct = (cache state, multiset of (project, configuration, -p)).",
 		Assumptions: append([]string{"interleavings of independent OS processes are sampled (offsets, -p, machine load), not enumerated: a pass is evidence, not exhaustion"}, commonAssumptions...),
 		ReplayUnit:  "TestC17Replay",
 		Units: []Unit{
@@ -302,8 +303,8 @@ func init() {
 		},
 	}
 	properties["C18"] = Property{
-		Level: "fault_enumeration",
-		Rule: "cases = a build of a two-package program from {module-cold, linker-less, GARBLE_CACHE-less} caches under {default, -literals} with -p in {1,4,16} is started and its whole process group killed with SIGKILL at an instant drawn stratified over [0, 1.05 T] (10 strata, T = measured duration of the uninterrupted reference build from the same starting state), once or twice in succession; then the same build is run again on the same caches. Oracle: the rerun exits 0 and its binary equals the uninterrupted build's. Non-trivial = a kill hit a still-running build; the phase label (listing, compiling, linker build or link, finishing) comes from the kill fraction; distinct = (cache state, configuration, phase sequence).",
+		Level:       "fault_enumeration",
+		Rule:        "cases = a build of a two-package program from {module-cold, linker-less, GARBLE_CACHE-less} caches under {default, -literals} with -p in {1,4,16} is started and its whole process group killed with SIGKILL at an instant drawn stratified over [0, 1.05 T] (10 strata, T = measured duration of the uninterrupted reference build from the same starting state), once or twice in succession; then the same build is run again on the same caches. Oracle: the rerun exits 0 and its binary equals the uninterrupted build's. Non-trivial = a kill hit a still-running build; the phase label (listing, compiling, linker build or link, finishing) comes from the kill fraction; distinct = (cache state, configuration, phase sequence).",
 		Assumptions: append([]string{"kill instants are sampled in time, not enumerated per write: a window of microseconds can be missed"}, commonAssumptions...),
 		ReplayUnit:  "TestC18Replay",
 		Units: []Unit{
